@@ -304,6 +304,15 @@ func installFunctions(in *Interp, p *Pkg) {
 		}
 		return a[0].Elems()[a[1].I], nil
 	})
+	// aref: "Returns the element at the given indices in an array."  Modelled for
+	// a vector and one index inside it; everything else (other array shapes, an
+	// index outside the vector, ill-typed arguments) is not specified: not judged.
+	defFn(p, "aref", 1, -1, func(in *Interp, a []*V) (*V, *Err) {
+		if len(a) != 2 || a[0].K != KVec || a[1].K != KInt || a[1].I < 0 || a[1].I >= int64(len(a[0].Vec.E)) {
+			return nil, in.unsure("aref outside a vector's range or on another shape is not specified")
+		}
+		return a[0].Vec.E[a[1].I], nil
+	})
 	defFn(p, "cons", 2, 2, func(in *Interp, a []*V) (*V, *Err) {
 		if a[1].K != KList {
 			return nil, in.errf("type")
